@@ -64,13 +64,17 @@ def pushdown_predicates(expression: E, dialect: DialectType = None) -> E:
                             pushdown_allowed = False
                             break
 
-                if pushdown_allowed and any(join.side == "FULL" for join in joins):
-                    # A full join null-extends the FROM source as well, so the WHERE clause also
-                    # filters the other side's unmatched rows and can't be pushed into that source
+                outer_joins = [i for i, join in enumerate(joins) if join.side in ("RIGHT", "FULL")]
+                if pushdown_allowed and outer_joins:
+                    # A right or full join null-extends every source to its left (the FROM source and
+                    # the earlier joins), so the WHERE clause also filters the unmatched rows of that
+                    # join's right side and can't be pushed into those sources
+                    positions = {id(join): i for i, join in enumerate(joins)}
                     selected_sources = {
                         k: (node, source)
                         for k, (node, source) in selected_sources.items()
-                        if not isinstance(node.find_ancestor(exp.Join, exp.From), exp.From)
+                        if positions.get(id(node.find_ancestor(exp.Join, exp.From)), -1)
+                        >= outer_joins[-1]
                     }
 
                 if pushdown_allowed:
